@@ -45,6 +45,11 @@ SplitMono(r) == /\ base.rank = 1 /\ base.om = "atomic"
 SplitDiblock == /\ base.rank = 1 /\ base.om = "gaussian"
                 /\ last' = [act |-> "SplitDiblock", relation |-> "all_equal_to_base"]
                 /\ depth' = depth + 1 /\ UNCHANGED <<base, content>>
+\* the site types get other NAMES (names that are prefixes / concatenations of each other, names that differ by case or a blank):
+\* nothing but the labels of the results changes
+RenameStyles == {"concat", "near"}
+Rename(st) == /\ last' = [act |-> "Rename", style |-> st, relation |-> "identical"]
+              /\ depth' = depth + 1 /\ UNCHANGED <<base, content>>
 Scale(s) == /\ last' = [act |-> "Scale", scale |-> s, relation |-> "structure_equal_pmf_scaled"]
             /\ depth' = depth + 1 /\ UNCHANGED <<base, content>>
 Next == /\ depth < 1
@@ -52,6 +57,7 @@ Next == /\ depth < 1
            \/ \E r \in Ratios : SplitMono(r)
            \/ SplitDiblock
            \/ \E s \in Scales : Scale(s)
+           \/ \E st \in RenameStyles : Rename(st)
 
 \* no reformulation changes what is being described
 ContentPreserved == [][content' = content]_vars
